@@ -1,3 +1,4 @@
+import Fpdec.Kernels.WideFits
 import Fpdec.Kernels.Wide
 import Fpdec.Kernels.Round
 import Fpdec.Lemmas.Wide
@@ -113,5 +114,12 @@ theorem kernel_round_quot (prof : Profile) (tm : Mode) (quot : Int) (rem divisor
   Kernels.round_quot_eq prof tm quot rem divisor mode hq
 theorem kernel_u128_mul_u128 (prof : Profile) (x y : Nat) :
     Gen.K.u128_mul_u128 prof x y = u128MulU128 prof x y := Kernels.u128_mul_u128_eq prof x y
+
+theorem kernel_i128_shifted_div_rounded (prof : Profile) (tm : Mode) (a : Int) (p : Nat) (b : Int) (mode : Option Mode) :
+    Gen.K.i128_shifted_div_rounded prof tm a p b mode = i128ShiftedDivRounded prof tm a p b mode :=
+  Kernels.i128_shifted_div_rounded_eq' prof tm a p b mode
+theorem kernel_i128_mul_div_ten_pow_rounded (prof : Profile) (tm : Mode) (x y : Int) (p : Nat) (mode : Option Mode) :
+    Gen.K.i128_mul_div_ten_pow_rounded prof tm x y p mode = i128MulDivTenPowRounded prof tm x y p mode :=
+  Kernels.i128_mul_div_ten_pow_rounded_eq' prof tm x y p mode
 
 end Fpdec.Props.C16
